@@ -9,7 +9,7 @@ from harness.core import enc_str, dec_str
 PROPERTY = "C11"
 READY = True
 THEOREMS = ["C11.consts_ok", "C11.no_loss", "C11.read_render", "C11.norm_perm", "C11.keys_sorted", "C11.lines",
-            "C11.lines_own_chunks", "C11.read_lines", "C11.text_determines_value"]
+            "C11.lines_own_chunks", "C11.read_lines", "C11.sort_then_render", "C11.text_determines_value"]
 RULE = ("one value per case, printed in both modes and consumed in every way a caller can (whole text, str(), lines "
         "streamed / collected first / rendered in reverse / by index / iterated twice, text after iteration) and "
         "through the chunk generator at an offset (diagnostic); values: all pairs of 9 atoms in lists/dicts, random nestings (depth <= 5), containers of "
@@ -880,7 +880,7 @@ LEVEL_TEXT = ("For every JSON-like value (any nesting, size and offset; strings 
               "iteration joined by line feeds is the text. Keyword tables, thresholds and indentation are re-read from "
               "ak/ppobj.py on every run; model = code (exact text, lines, chunk lists at offsets 0..40) and "
               "reader = json.loads / ast.literal_eval are established by differential runs.")
-LEVEL_NOTE = ("Kernel-checked theorems: C11.no_loss, read_render, read_lines, norm_perm, keys_sorted, lines, lines_own_chunks, "
+LEVEL_NOTE = ("Kernel-checked theorems: C11.no_loss, read_render, read_lines, norm_perm, keys_sorted, lines, lines_own_chunks, sort_then_render, "
               "text_determines_value, consts_ok (axioms propext, Classical.choice, Quot.sound). Resting on the sampled "
               "correspondence only: that the Lean model computes the text of the real printer (compared character by "
               "character on ~5k values per quick run around both thresholds), and that the Lean reader is what json.loads / "
